@@ -6,7 +6,7 @@ import ast
 from sa import flow
 from sa.model import AnalysisError, dotted, unparse
 from sa.rules import LEVEL_TEXT, rule
-from sa.rules.util import external_name, iter_body_nodes, qual
+from sa.rules.util import external_name, is_self_attr, iter_body_nodes, qual
 
 LEVEL_TEXT["C12"] = (
     "Decides structural necessary conditions of C12: every hash partition assignment receives the numeric cast dtype "
@@ -22,7 +22,7 @@ R12A_EXCEPTIONS = {}
 
 @rule(
     "R12a",
-    ["C12"],
+    ["C12", "C10"],
     """CAST MUST-PASS-THROUGH: (a) every call of dask's partitioning_index(frame, npartitions, cast_dtype) in the repository
     passes a cast dtype; (b) RearrangeByColumn._lower passes AssignPartitioningIndex a cast-dtype value all of whose
     definitions go through _is_numeric_cast_type, and (c) computes it from the same versions of `frame` and
@@ -106,6 +106,24 @@ def r12a(ctx):
                     # execute after the cast computation on one path (not in an exclusive if/else arm)
                     if any(not _exclusive(scope, d_stmt, lo) for d_stmt in later):
                         problems.append((node, name))
+    # the cast computation must look at the LOCAL version of the frame (which may have been extended with a helper column for an
+    # index-level key), never at the operand `self.frame` behind its back
+    rebound = {w: sum(1 for d in defs.all if d.name == w and d.value is not None) > 1 for w in watched}
+    frame_locals = [w for w in locals_defined_by(lo, "self.frame") if rebound.get(w)]
+    if frame_locals:
+        for node in ast.walk(lo):
+            if isinstance(node, ast.Call) and dotted(node.func) == "_is_numeric_cast_type":
+                st = node
+                while not isinstance(st, ast.stmt):
+                    st = st._parent
+                par = getattr(st, "_parent", None)
+                while par is not None and par is not lo and not isinstance(par, ast.For):
+                    par = getattr(par, "_parent", None)
+                scope_nodes = ([par.iter] if isinstance(par, ast.For) else []) + [st] + list(_sibling_feeders(defs, st, lo))
+                for sn in scope_nodes:
+                    for x in ast.walk(sn):
+                        if is_self_attr(x, "frame") and not (isinstance(getattr(x, "_parent", None), ast.Assign) and x._parent.value is x):
+                            problems.append((node, "self.frame"))
     if problems:
         node, name = problems[0]
         ctx.bad("_shuffle.RearrangeByColumn._lower:cast-from-hashed-frame", rbc.module.loc(node), f"the cast dtypes are computed from an earlier version of `{name}` than the one handed to AssignPartitioningIndex (the key list / frame is modified in between, e.g. an index level rewritten to a helper column): that key is hashed without the numeric cast")
